@@ -1641,6 +1641,33 @@ def _scenario(seed: int, kind: str):
             S(id=m2, op="mutate", src=al, cols=[["s", {"fn": "sum", "args": [{"col": [al, "x"]}]}], ["rn", {"fn": "row_number", "args": [], "arrange": [{"col": [al, "id"]}]}]])
             S(id=ug, op="ungroup", src=m2)
             S(id="x1", op="export", src=ug, target="polars", ordered=False)
+    elif kind == "scen_window_cast_join":
+        # a cast (or a case expression, or arithmetic) around a window function is still a window column: the join / filter after it
+        # needs the alias() to become a subquery
+        a = table("src0", [("a", "int"), ("x", "int")], nrows=r.choice([4, 6]))
+        b = table("src1", [("k", "int"), ("y", "int")], nrows=r.choice([3, 5]))
+        w = {"fn": "shift", "args": [{"col": [a.tid, "x"]}, {"lit": 1}, {"lit": None}], "arrange": [{"col": [a.tid, "id"]}]}
+        wrapped = r.choice([{"cast": w, "to": "float64"}, {"case": [[{"fn": "is_null", "args": [w]}, {"lit": -1}]], "default": w},
+                            {"fn": "add", "args": [{"cast": w, "to": "float64"}, {"lit": 0.5}]}])
+        m1, al, last = g.fresh_t(), g.fresh_t(), g.fresh_t()
+        S(id=m1, op="mutate", src=a.tid, cols=[["prev", wrapped]])
+        S(id=al, op="alias", src=m1)
+        if r.random() < 0.6:
+            S(id=last, op="join", src=al, right=b.tid, on=[{"fn": "equal", "args": [{"col": [al, "id"]}, {"col": [b.tid, "id"]}]}], how=r.choice(["inner", "left"]))
+        else:
+            S(id=last, op="filter", src=al, preds=[{"fn": "is_not_null", "args": [{"col": [al, "prev"]}]}])
+        S(id="x1", op="export", src=last, target="polars", ordered=False)
+    elif kind == "scen_summarize_case_key":
+        # a grouping column *inside* a case expression or under a cast in a grouped summarize: still one scalar per group
+        a = table("src0", [("g", "int"), ("a", "int")], nrows=r.choice([5, 8]))
+        gb, sm = g.fresh_t(), g.fresh_t()
+        gcol, acol = {"col": [a.tid, "g"]}, {"col": [a.tid, "a"]}
+        S(id=gb, op="group_by", src=a.tid, cols=[gcol])
+        S(id=sm, op="summarize", src=gb, cols=[
+            ["x", {"case": [[{"fn": "is_null", "args": [gcol]}, {"lit": 0}]], "default": {"fn": "sum", "args": [acol]}}],
+            ["y", {"cast": {"fn": "add", "args": [{"fn": "max", "args": [acol]}, gcol]}, "to": "float64"}],
+            ["z", {"fn": "add", "args": [gcol, {"fn": "count_star", "args": []}]}]])
+        S(id="x1", op="export", src=sm, target="polars", ordered=False)
     elif kind == "scen_empty_args":
         # verbs called without arguments are legal and do nothing: filter() keeps every row, mutate() / rename({}) / drop()
         # change nothing (arrange needs a key) - between ordinary verbs, on a table with rows
